@@ -533,4 +533,36 @@ Section ProgLaws.
     - intros cs Ht. destruct (mutate_frame cs h1 r G1 ltac:(lia) Ht) as (outs & h2 & H2 & G2 & L2 & F2).
       exists outs, h2. split; [exact H2|]. split; [exact G2|]. apply F2. lia.
   Qed.
+  (** ** end to end: a history of mutators run on a heap object *)
+  Definition cmd_of_mut (m : mut T) : cmd T :=
+    match m with MAdd _ vs => CAdd T 0 vs | MRemove _ vs => CRemove T 0 vs | MRemoveAll _ => CRemoveAll T 0 end.
+
+  Lemma vrun_hist_cmds : forall hist s s' t, vrun_hist T eqb cmp s hist = Ok s' ->
+    vrun (mkvs T [s] t) (map cmd_of_mut hist) = Ok (map (fun _ => OUnit T) hist, mkvs T [s'] t).
+  Proof.
+    induction hist as [|m hist IH]; intros s s' t H; simpl in *.
+    - inversion H. reflexivity.
+    - destruct (vstep T eqb cmp s m) as [s1| |] eqn:E; simpl in H; try discriminate.
+      assert (Hx : vexec (mkvs T [s] t) (cmd_of_mut m) = Ok (OUnit T, mkvs T [s1] t)).
+      { destruct m; simpl in *; unfold vget; simpl.
+        - rewrite E. reflexivity.
+        - rewrite E. reflexivity.
+        - inversion E. reflexivity. }
+      rewrite Hx. simpl. rewrite (IH s1 s' t H). reflexivity.
+  Qed.
+
+  Theorem heap_history : forall (k : kind) (hist : list (mut T)),
+    exists h' l, hrun (empty_heap T) (CNew T k :: map cmd_of_mut hist) = Ok (ORef T 0 :: map (fun _ => OUnit T) hist, h') /\
+      good h' /\ abs h' = [mkv k l] /\ repr T cmp k (s_run T eqb hist) l.
+  Proof.
+    intros k hist.
+    destruct (history_refines T eqb cmp eqb_spec cmp_eq cmp_anti cmp_trans k hist) as (l & Hl & R).
+    pose proof (vrun_hist_cmds hist (vnew T k) (mkv k l) 0 Hl) as Hv.
+    assert (Hv' : vrun (mkvs T [] 0) (CNew T k :: map cmd_of_mut hist) =
+                  Ok (ORef T 0 :: map (fun _ => OUnit T) hist, mkvs T [mkv k l] 0)).
+    { simpl. unfold vpush. simpl. rewrite Hv. reflexivity. }
+    destruct (run_sim T zero grow eqb cmp draw grow_ok _ (empty_heap T) _ _ _ (rel_empty T) Hv') as (h' & Hh & (W & A & Tk)).
+    exists h', l. split; [exact Hh|]. simpl in A. split; [|split; [exact A|exact R]].
+    split; [exact W|]. rewrite A. constructor; [|constructor]. eapply repr_inv; eauto.
+  Qed.
 End ProgLaws.
